@@ -1,6 +1,6 @@
 (* Trace-validation harness for C42, evaluated inside Coq by vm_compute.
-   A case is (fixed, initial content, (W, warm, tend), strobe slack,
-   timed trace, observed history).
+   A case is (fixed, acceleration allowed, replayable, initial content,
+   (W, warm, tend), strobe slack, timed trace, observed history).
    - The timed trace is what a real local endpoint in force-poll mode did, in
      the total order of its own debug log lines (polling loop: scan begun /
      failed / succeeded / compare outcome; Scan: cached or full) and of the
@@ -29,8 +29,13 @@ Inductive hev :=
 | HEdit (c : nat)
 | HPollRet.
 
+(* (fixed, acceleration allowed (scan mode), replayable, initial content,
+   (W, warm, tend), strobe slack, timed trace, observed history).
+   replayable = false: a poll scan overlapped a Transition or an edit, so the
+   order of their effects is not observable and the trace is not replayed;
+   the observed history is judged all the same. *)
 Definition wcase :=
-  (bool * nat * (nat * nat * nat) * nat * list (nat * hev) * list oev)%type.
+  (bool * bool * bool * nat * (nat * nat * nat) * nat * list (nat * hev) * list oev)%type.
 
 (* aliases with nat times (milliseconds) *)
 Definition XD (t c : nat) (ext : bool) : oev := XDisk (N.of_nat t) c ext.
@@ -119,9 +124,9 @@ Definition matched (slack tend : nat) (strobes rets : list nat) : bool :=
                        || existsb (fun r => (x <=? r + 50) && (r <=? x + slack)) rets) strobes.
 
 Definition watch_verdict (c : wcase) : nat :=
-  let '(fixed, c0, (w, warm, tend), slack, tr, obs) := c in
-  let '(ok, strobes, rets) := replay fixed (init c0) tr [] [] in
-  (if ok && matched slack tend strobes rets then 0 else 1)
+  let '(fixed, acc, replayable, c0, (w, warm, tend), slack, tr, obs) := c in
+  let '(ok, strobes, rets) := replay fixed (init acc c0) tr [] [] in
+  (if negb replayable || (ok && matched slack tend strobes rets) then 0 else 1)
   + (if check_C42 (N.of_nat w) (N.of_nat warm) (N.of_nat tend) c0 obs then 0 else 2).
 
 Fixpoint watch_failures (i : nat) (cs : list wcase) : list (nat * nat) :=
